@@ -95,7 +95,12 @@ func New(id, tier, level string) *Run {
 	// watchdog: every loop of the harness consults Expired(), so a process that is still running long after its
 	// internal deadline is stuck inside the code under test (or inside a sub-process of its own). Violations
 	// recorded so far are then reported (exit 1); without any there is no verdict (instrument error, exit 2).
+	// (top-level checks only: sub-runs - C13sub, C06stop, ... - get their budget from the parent, which watches them)
+	topLevel := len(id) == 3
 	time.AfterFunc(2*budget+3*time.Minute, func() {
+		if !topLevel {
+			return
+		}
 		if r.Failed() {
 			fmt.Fprintf(os.Stderr, "watchdog: %s %s still running %v after its internal deadline; reporting what was found\n", id, tier, budget+3*time.Minute)
 			r.cut.Store(true)
